@@ -15,20 +15,31 @@ Local Open Scope nat_scope.
    IS the DSDL capacity, the up-front test is always compiled in and no guard is emitted; with it the user may reduce capacities
    (`ov`), which compiles the up-front test out (`upf`).  Endianness paths and the static alignment annotation are arbitrary.
    --------------------------------------------------------------------------------------------------------------------------------- *)
+(* WHERE the checks sit relative to the accesses they protect: decided here from the scanned check / access event lists of the macros
+   (`check_first`: every access event is preceded by a check event).  The walkers CONSULT this plan (WalkerSafe.ordered): with a flag
+   false they access first and check afterwards, and none of the bounds theorems below type-checks any more. *)
+Definition tree_plan : chkplan :=
+  {| pl_ser_impl := check_first tpl_c_events_ser_impl; pl_ser_vla := check_first tpl_c_events_ser_vla;
+     pl_des_vla := check_first tpl_c_events_des_vla; pl_des_hdr := check_first tpl_c_events_des_composite |}.
+Definition cpp_ser_plan : chkplan :=
+  {| pl_ser_impl := check_first tpl_c_events_cpp_ser_impl; pl_ser_vla := check_first tpl_c_events_cpp_ser_vla;
+     pl_des_vla := true; pl_des_hdr := true |}.
+
 Definition tree_cfg (opt : bool) (ov : ty -> nat -> nat) (upf le : bool) (al : nat -> bool) : cfg :=
   {| ov := if opt then ov else (fun _ n => n); up_front := if opt then upf else true; little := le; al := al;
      len_chk_storage := opt && tpl_c_len_check_storage; guarded := opt && tpl_c_ser_guarded; ptr_clamp := tpl_c_des_ptr_clamped;
-     bulk_on := true |}.
+     bulk_on := true; nested_strict := false; plan := tree_plan |}.
 
-(* ---- in every scanned macro the first event is the check: all accesses come after it (decided here, not by the scanner) ---- *)
-Theorem c04_checks_precede_accesses :
-  forallb check_first [tpl_c_events_ser_impl; tpl_c_events_ser_vla; tpl_c_events_des_vla; tpl_c_events_des_composite] = true
-  /\ tpl_order_facts = true.
+(* the remaining order facts (boolean, from the scanner): the union chains end in BAD_UNION_TAG, guarded byte loads, nunavutGetBits
+   zero-fills from floor(sat/8), the C++ serializer stores only through checked members - and those members test before they store *)
+Theorem c04_scanned_order_facts :
+  tpl_order_facts = true /\
+  forallb check_first [tpl_c_events_cpp_setBit; tpl_c_events_cpp_setUxx; tpl_c_events_cpp_setZeros] = true.
 Proof. split; reflexivity. Qed.
-Print Assumptions c04_checks_precede_accesses.
+Print Assumptions c04_scanned_order_facts.
 
 (* ================================================  C: deserialization  ================================================ *)
-Theorem c04_des_in_bounds : forall c, cap_sound c -> forall capB t prior buf,
+Theorem c04_des_in_bounds : forall c, plan_ok c -> cap_sound c -> forall capB t prior buf,
   wf_ty t = true -> length buf = 8 * capB ->
   forallb (acc_ok capB) (snd (walk_des_safe c t prior buf)) = true.
 Proof. exact des_in_bounds. Qed.
@@ -42,7 +53,7 @@ Theorem c04_default_des_in_bounds : forall ov upf le al capB t prior buf,
 Proof.
   intros ov upf le al capB t prior buf Hwf Hl.
   assert (Hc : cap_sound (tree_cfg false ov upf le al)) by (right; intros e n; apply le_n).
-  split; [exact (des_in_bounds _ Hc capB t prior buf Hwf Hl) | exact (des_ptr_in_bounds _ Hc capB t prior buf eq_refl Hwf Hl)].
+  split; [exact (des_in_bounds (tree_cfg false ov upf le al) eq_refl Hc capB t prior buf Hwf Hl) | exact (des_ptr_in_bounds (tree_cfg false ov upf le al) eq_refl Hc capB t prior buf eq_refl Hwf Hl)].
 Qed.
 Print Assumptions c04_default_des_in_bounds.
 
@@ -54,25 +65,25 @@ Theorem c04_option_des_in_bounds : forall ov upf le al capB t prior buf,
 Proof.
   intros ov upf le al capB t prior buf Hwf Hl.
   assert (Hc : cap_sound (tree_cfg true ov upf le al)) by (left; reflexivity).
-  split; [exact (des_in_bounds _ Hc capB t prior buf Hwf Hl) | exact (des_ptr_in_bounds _ Hc capB t prior buf eq_refl Hwf Hl)].
+  split; [exact (des_in_bounds (tree_cfg true ov upf le al) eq_refl Hc capB t prior buf Hwf Hl) | exact (des_ptr_in_bounds (tree_cfg true ov upf le al) eq_refl Hc capB t prior buf eq_refl Hwf Hl)].
 Qed.
 Print Assumptions c04_option_des_in_bounds.
 
 (* the outcome (value, consumed size, error) does not depend on the destination's prior contents: every rendering *)
-Theorem c04_des_prior_indep : forall c t prior1 prior2 buf,
+Theorem c04_des_prior_indep : forall c, plan_ok c -> forall t prior1 prior2 buf,
   obs_res t (fst (walk_des_safe c t prior1 buf)) = obs_res t (fst (walk_des_safe c t prior2 buf)).
 Proof. exact des_prior_indep. Qed.
 Print Assumptions c04_des_prior_indep.
 
 (* ... and it is that of the prior-free walker of Codec/Walker.v whenever the length checks are the specification's *)
-Theorem c04_des_obs_eq_walker : forall c, (forall e n, chk_cap c e n = n) -> forall t prior buf,
+Theorem c04_des_obs_eq_walker : forall c, plan_ok c -> (forall e n, chk_cap c e n = n) -> forall t prior buf,
   obs_res t (fst (walk_des_safe c t prior buf)) = walk_des ref_prims t buf.
 Proof. exact des_obs_eq_walker. Qed.
 Print Assumptions c04_des_obs_eq_walker.
 
 (* only BAD_ARRAY_LENGTH / BAD_UNION_TAG / BAD_DELIMITER_HEADER can be reported (the model has no other error to give: the content of
    this theorem is that TOO_SMALL is not among them and that no internal `shape` error exists; termination is structural) *)
-Theorem c04_des_errors : forall c t prior buf,
+Theorem c04_des_errors : forall c, plan_ok c -> forall t prior buf,
   (exists v k, fst (walk_des_safe c t prior buf) = Ok (v, k)) \/
   (exists e, fst (walk_des_safe c t prior buf) = Err e /\ des_err_documented e = true).
 Proof. exact des_total. Qed.
@@ -80,13 +91,13 @@ Print Assumptions c04_des_errors.
 
 (* ================================================  C: serialization  ================================================ *)
 (* a serialization refused for lack of space wrote nothing *)
-Theorem c04_too_small_no_write : forall c t o capB,
+Theorem c04_too_small_no_write : forall c t o capB, plan_ok c ->
   up_front c = true -> 8 * capB < bmax t -> walk_ser_safe c t o capB = (Err ETooSmall, []).
 Proof. exact too_small_no_write. Qed.
 Print Assumptions c04_too_small_no_write.
 
 (* once the buffer passes the up-front test: every access in bounds whatever the object holds, and TOO_SMALL is never reported later *)
-Theorem c04_ser_in_bounds : forall c, cap_sound c -> forall t o capB,
+Theorem c04_ser_in_bounds : forall c, plan_ok c -> cap_sound c -> forall t o capB,
   wf_ty t = true -> align t = 8 -> bmax t <= 8 * capB ->
   forallb (acc_ok capB) (snd (walk_ser_safe c t o capB)) = true /\ fst (walk_ser_safe c t o capB) <> Err ETooSmall.
 Proof. exact ser_in_bounds. Qed.
@@ -98,17 +109,17 @@ Theorem c04_default_ser_in_bounds : forall ov upf le al t o capB,
   forallb (acc_ok capB) (snd (walk_ser_safe (tree_cfg false ov upf le al) t o capB)) = true.
 Proof.
   intros ov upf le al t o capB Hwf Ha.
-  exact (ser_in_bounds_checked (tree_cfg false ov upf le al) t o capB eq_refl (or_intror (fun e n => le_n n)) Hwf Ha).
+  exact (ser_in_bounds_checked (tree_cfg false ov upf le al) t o capB eq_refl eq_refl (or_intror (fun e n => le_n n)) Hwf Ha).
 Qed.
 Print Assumptions c04_default_ser_in_bounds.
 
 (* the build with the option: every buffer size, every storage capacity, up-front test compiled in or out (needs the guarded tree) *)
 Theorem c04_option_ser_in_bounds : forall ov upf le al t o capB,
   forallb (acc_ok capB) (snd (walk_ser_safe (tree_cfg true ov upf le al) t o capB)) = true.
-Proof. intros ov upf le al t o capB. exact (ser_in_bounds_guarded (tree_cfg true ov upf le al) t o capB eq_refl eq_refl). Qed.
+Proof. intros ov upf le al t o capB. exact (ser_in_bounds_guarded (tree_cfg true ov upf le al) t o capB eq_refl eq_refl eq_refl). Qed.
 Print Assumptions c04_option_ser_in_bounds.
 
-Theorem c04_ser_errors : forall c t o capB,
+Theorem c04_ser_errors : forall c, plan_ok c -> forall t o capB,
   (exists n, fst (walk_ser_safe c t o capB) = Ok n) \/
   (exists e, fst (walk_ser_safe c t o capB) = Err e /\ ser_err_documented e = true).
 Proof. exact ser_total. Qed.
@@ -158,7 +169,7 @@ Print Assumptions c04_cpp_des_in_bounds.
 Theorem c04_cpp_des_prior_indep : forall t prior1 prior2 buf,
   obs_res t (fst (walk_des_safe (cpp_cfg tpl_cpp_subspan_clamped) t prior1 buf))
   = obs_res t (fst (walk_des_safe (cpp_cfg tpl_cpp_subspan_clamped) t prior2 buf)).
-Proof. exact (des_prior_indep (cpp_cfg tpl_cpp_subspan_clamped)). Qed.
+Proof. exact (des_prior_indep (cpp_cfg tpl_cpp_subspan_clamped) eq_refl). Qed.
 Print Assumptions c04_cpp_des_prior_indep.
 
 (* the pointer any_bitspan::subspan() hands to the nested span, as scanned from the support header, IS what the model's cpp_cfg
@@ -177,6 +188,25 @@ Theorem c04_cpp_des_ptr_in_bounds : forall capB t prior buf, wf_ty t = true -> l
   forallb (ptr_ok capB) (snd (walk_des_safe (cpp_cfg tpl_cpp_subspan_clamped) t prior buf)) = true.
 Proof. exact cpp_des_ptr_in_bounds. Qed.
 Print Assumptions c04_cpp_des_ptr_in_bounds.
+
+(* ---- the C++ SERIALIZER: every store of serialize(obj, bitspan) lies inside the caller's buffer, for every type, every object
+   content (vector longer than the capacity, any tag) and EVERY buffer size, with the up-front test compiled in or out; what does not
+   fit is refused by the member before it stores.  The two template-level checks sit where the scanned events say (cpp_ser_plan);
+   that all stores go through checked members is tpl_cpp_ser_stores_checked (c04_scanned_order_facts). ---- *)
+Theorem c04_cpp_ser_in_bounds : forall upf t o capB,
+  forallb (acc_ok capB) (snd (walk_ser_safe (cpp_ser_cfg upf cpp_ser_plan) t o capB)) = true.
+Proof. intros upf t o capB. exact (cpp_ser_in_bounds upf cpp_ser_plan t o capB eq_refl). Qed.
+Print Assumptions c04_cpp_ser_in_bounds.
+
+Theorem c04_cpp_ser_too_small_no_write : forall t o capB, 8 * capB < bmax t ->
+  walk_ser_safe (cpp_ser_cfg true cpp_ser_plan) t o capB = (Err ETooSmall, []).
+Proof. intros t o capB. exact (cpp_ser_too_small_no_write cpp_ser_plan t o capB eq_refl). Qed.
+Print Assumptions c04_cpp_ser_too_small_no_write.
+
+(* a member that refuses touches nothing; one that accepts is the defined CppPrims call (setUxx = the C one on the span) *)
+Theorem c04_checked_refusal_touches_nothing : forall lim off w, lim < off + w -> w_checked lim off w = (Err ETooSmall, []).
+Proof. exact checked_refusal_touches_nothing. Qed.
+Print Assumptions c04_checked_refusal_touches_nothing.
 
 (* zero runs of the C++ serializer (void fields): every byte access of bitspan::setZeros, as scanned from the support header, lies
    inside the footprint [off/8, ceil((off+len)/8)) that the log entry of a zero run states - for every offset and length; so a store
@@ -254,6 +284,31 @@ Theorem c04_variant_ctor_needs_zero : exists np t0, ubad (ctor tpl_union_dshape 
 Proof. exact variant_ctor_needs_zero. Qed.
 Print Assumptions c04_variant_ctor_needs_zero.
 
+(* ================================================  cursor width  ================================================ *)
+(* the cursor / length types of the rendering (lang/properties.yaml named_types, regenerated) are as wide as the size_t of the primitive
+   models the instance lemmas above are proved against (Prims/CPrims.v: 2^64) *)
+Theorem c04_width_is_model_width :
+  (2 ^ N.of_nat tpl_width_c_unsigned_bit_length = two64 /\ 2 ^ N.of_nat tpl_width_c_unsigned_length = two64 /\
+   2 ^ N.of_nat tpl_width_cpp_unsigned_bit_length = two64 /\ 2 ^ N.of_nat tpl_width_cpp_unsigned_length = two64)%N.
+Proof. repeat split; reflexivity. Qed.
+Print Assumptions c04_width_is_model_width.
+
+Theorem c04_wfits_is_fits : forall b, wfits tpl_width_c_unsigned_bit_length b -> fits b.
+Proof. exact (fun b H => H). Qed.
+Print Assumptions c04_wfits_is_fits.
+
+(* the natural-number cursor of the model is the W-bit cursor: serialization never moves it past the capacity, so nothing wraps as long
+   as the capacity in bits is representable *)
+Theorem c04_ser_cursor_fits : forall c, plan_ok c -> cap_sound c -> forall t o capB n,
+  wf_ty t = true -> align t = 8 -> bmax t <= 8 * capB -> fst (walk_ser_safe c t o capB) = Ok n -> n <= capB.
+Proof. intros c Hpl Hc t o capB n. exact (ser_size_le c t o capB n Hpl Hc). Qed.
+Print Assumptions c04_ser_cursor_fits.
+
+(* why the width is pinned: with a 16-bit cursor type `capacity_bytes * 8` wraps for a buffer of 8 KiB *)
+Theorem c04_width16_wraps : exists capB : N, ((8 * capB) mod 2 ^ 16 < 8 * capB /\ (8 * capB) mod 2 ^ 16 = 0)%N.
+Proof. exists 8192%N. split; reflexivity. Qed.
+Print Assumptions c04_width16_wraps.
+
 (* ================================================  translated pieces, primitive level  ================================================ *)
 Theorem c04_bytes_hi_translated : forall n, Gen_C01.filter_bits2bytes_ceil (Z.of_nat n) = Some (Z.of_nat (bytes_hi n)).
 Proof. exact bytes_hi_translated. Qed.
@@ -267,7 +322,7 @@ Example c04_ex_des :
   = obs_res ex_t (fst (walk_des_safe (std_cfg true) ex_t
         (CStruct [CPrim (VBool true); CVar 77 [CPrim (VInt 9)]; CUnion 5 (CVar 3 [])]) (bits_of_bytes [3; 170; 1; 2; 1; 0; 0]%N)))
   /\ exists v k, obs_res ex_t (fst (walk_des_safe (std_cfg true) ex_t dflt (bits_of_bytes [3; 170; 1; 2; 1; 0; 0]%N))) = Ok (v, k).
-Proof. split; [apply des_prior_indep | vm_compute; eexists; eexists; reflexivity]. Qed.
+Proof. split; [apply des_prior_indep; reflexivity | vm_compute; eexists; eexists; reflexivity]. Qed.
 Example c04_ex_ser : wf_ty ex_t = true /\ align ex_t = 8 /\ bmax ex_t <= 8 * 8 /\
   exists n, fst (walk_ser_safe (std_cfg true) ex_t (CStruct [CPrim (VBool true); CVar 2 [CPrim (VInt 1); CPrim (VInt 2); CPrim (VInt 3)];
                                                               CUnion 1 (CVar 3 [CPrim (VBool true)])]) 8) = Ok n.
